@@ -139,6 +139,32 @@ pub fn run(ctx: &Ctx) {
         if r.chance(1, 4) { extra.push(("interface", r.pick(&["0.0.0.0", "127.0.0.1", "10.1.2.3"]).to_string())); }
         case(&mut out, &base(extra), &dir);
     }
+    // one out-of-range / invalid setting in the company of other (valid) settings: a later, passing
+    // validation step must not mask an earlier refusal
+    let bad_values: [(&str, &[i64]); 4] = [
+        ("port", &[0, 65536, 70000, -1]), ("batch_size", &[0, 65, 200, 256, 300]), ("fault_percentage", &[51, 100, 255, 256]), ("num_workers", &[0, -1]),
+    ];
+    for (key, vals) in bad_values.iter() {
+        for &v in vals.iter() {
+            let mut extra: Vec<(&str, String)> = vec![(key, v.to_string())];
+            extra.push(("client_stats", "\"on\"".to_string()));
+            extra.push(("persistence_directory", format!("\"{}\"", persist)));
+            case(&mut out, &base(extra.clone()), &dir);
+            // and with a few more valid settings around it
+            let mut more = extra.clone();
+            if *key != "batch_size" { more.push(("batch_size", r.range(1, 64).to_string())); }
+            if *key != "fault_percentage" { more.push(("fault_percentage", r.range(0, 50).to_string())); }
+            more.push(("health_check_port", r.range(1, 65535).to_string()));
+            more.push(("status_interval", r.range(1, 65535).to_string()));
+            case(&mut out, &base(more), &dir);
+        }
+    }
+    // bad seed / missing port with client statistics enabled
+    case(&mut out, &base(vec![("seed", "00".to_string()), ("client_stats", "\"on\"".to_string()), ("persistence_directory", format!("\"{}\"", persist))]), &dir);
+    {
+        let v: Vec<(String, String)> = base(vec![("client_stats", "\"yes\"".to_string()), ("persistence_directory", format!("\"{}\"", persist))]).into_iter().filter(|(k, _)| k != "port").collect();
+        case(&mut out, &v, &dir);
+    }
     // missing required settings, unknown keys
     for missing in ["port", "interface", "seed"] {
         let v: Vec<(String, String)> = base(vec![]).into_iter().filter(|(k, _)| k != missing).collect();
